@@ -13,8 +13,12 @@
 (*  reset  len, S, tag, cipher ("" = default), alg (as given, may be an       *)
 (*         alias), keyName, decKeyName, omit, producer in {"real","ref","stored"}*)
 (*  wrap   alg, keyName, fkLen      what the WrapKeyFn callback received      *)
-(*  encfail stage in {"call","stream"}  Encrypt failed (options are valid and  *)
-(*         the source is clean in every recorded run)                         *)
+(*  encfail stage in {"call","stream"}, hdrWouldBe: Encrypt failed (options are *)
+(*         valid and the source is clean in every recorded run); hdrWouldBe =  *)
+(*         size of the header the README implementation builds for the same    *)
+(*         manifest values.  The header is limited to one segment (reset.hmax  *)
+(*         bytes): refusing a longer one with an error from the Encrypt call   *)
+(*         is the only legitimate failure.                                     *)
 (*  doc    scheme, lines, compact, required, hasK, k, kw, cph, wfkOK, npLen,  *)
 (*         macStd, macLen, macOK, payloadLen                                  *)
 (*  seg    i, clen, opens in {"last","notlast","none"}, plainOK               *)
@@ -61,9 +65,9 @@ ChunkLen(len, S, i) == Min(len, (i + 1) * S) - i * S          \* i is 0-based
 ChunkLast(len, S, i) == (i + 1) * S >= len
 PayloadLen(len, S, tag) == len + tag * NumChunks(len, S)
 
-CReset(e) == [bad |-> FALSE, why |-> "", o |-> e, wrapSeen |-> FALSE, docSeen |-> FALSE, segs |-> 0, decs |-> 0, segns |-> 0]
+CReset(e) == [bad |-> FALSE, why |-> "", o |-> e, wrapSeen |-> FALSE, docSeen |-> FALSE, segs |-> 0, decs |-> 0, segns |-> 0, refused |-> FALSE]
 Dummy == CReset([len |-> 0, S |-> 1, tag |-> 0, cipher |-> "", alg |-> "AES", keyName |-> "k", decKeyName |-> "",
-                 omit |-> FALSE, producer |-> "real"])
+                 omit |-> FALSE, producer |-> "real", hmax |-> 65536])
 
 CWrap(c, e) ==
   IF e.alg # Resolve(c.o.alg) THEN Bad("WrapKeyFn did not receive the resolved algorithm id of the option")
@@ -71,8 +75,14 @@ CWrap(c, e) ==
   ELSE IF e.fkLen # 32 THEN Bad("file key is not 256 bits")
   ELSE [c EXCEPT !.wrapSeen = TRUE]
 
+CEncFail(c, e) ==
+  IF e.stage # "call" THEN Bad("Encrypt failed after it started the output stream")
+  ELSE IF e.hdrWouldBe <= c.o.hmax THEN Bad("Encrypt failed with valid options and a clean source")
+  ELSE [c EXCEPT !.refused = TRUE]          \* header larger than one segment: refused cleanly
+
 CDoc(c, e) ==
-  IF c.o.producer = "real" /\ ~c.wrapSeen THEN Bad("document produced without wrapping the file key")
+  IF c.refused THEN Bad("document produced after Encrypt returned an error")
+  ELSE IF c.o.producer = "real" /\ ~c.wrapSeen THEN Bad("document produced without wrapping the file key")
   ELSE IF e.lines # 3 THEN Bad("header does not have three LF-terminated lines")
   ELSE IF e.scheme # SchemeLine THEN Bad("first header line is not the scheme name")
   ELSE IF ~e.compact THEN Bad("manifest is not compact JSON")
@@ -131,6 +141,7 @@ CSegN(c, e) ==
 
 CEnd(c) ==
   IF c.o.producer = "segfn" THEN (IF c.segns = 0 THEN Bad("no segment function call recorded") ELSE c)
+  ELSE IF c.refused THEN c
   ELSE IF ~c.docSeen THEN Bad("no document was produced")
   ELSE IF c.segs # NumChunks(c.o.len, c.o.S) THEN Bad("fewer segments than Chunks(len,S)")
   ELSE IF c.decs = 0 THEN Bad("document was never decrypted")
@@ -140,7 +151,7 @@ CNext(c, e) ==
   IF e.ev = "reset" THEN CReset(e)
   ELSE IF IsBad(c) THEN c
   ELSE CASE e.ev = "wrap"   -> CWrap(c, e)
-         [] e.ev = "encfail" -> Bad("Encrypt failed with valid options and a clean source")
+         [] e.ev = "encfail" -> CEncFail(c, e)
          [] e.ev = "doc"    -> CDoc(c, e)
          [] e.ev = "seg"    -> CSeg(c, e)
          [] e.ev = "segn"   -> CSegN(c, e)
